@@ -10,6 +10,7 @@
    lookup answers exactly what the cache-less lookup answers, in both lookup modes.
    Not proved here (covered by the configuration sweep of tools/c14.py): that the storage backends
    implement the file semantics of Storage.v, moka internals, the OS file system. *)
+From HC Require Import SoundCoreLib SoundCore ReplicaCor ReplicaCorA ReplicaCorC.
 From HC Require Import Core Refine ClearRefine Unified1 Unified3 CacheModel CacheOps.
 From HC Require Import Base NMap Codec Crypto FlatTree Storage Oplog Merkle Cache.
 From HC Require Import PagedMem PagedMemFacts.
@@ -175,6 +176,50 @@ Theorem C14_cache_valid_after_history :
            (snd (snd (hrun_c cr ev ops st c w))).
 Proof. exact cache_valid_after_history. Qed.
 
+Theorem C14_accepted_proofs_agree_with_visible_nodes :
+  forall cr : crypto,
+         (forall x : bytes, Datatypes.length (cr_hash cr x) = 32%nat) ->
+         (forall x : bytes, all_zero (cr_hash cr x) = false) ->
+         forall bs : list bytes,
+         writer_fits bs ->
+         forall (pf : proof) (c : core) (w : world),
+         RInv cr bs c (w_disk w) ->
+         SoundCoreBU.block_upgrade_ok pf ->
+         proof_agrees cr c w pf \/ Sound.some_collision cr \/ forged_signature cr bs (kp_public (c_keypair c)).
+Proof. exact replica_proof_agrees. Qed.
+
+Theorem C14_cache_transparent_for_replica_histories :
+  forall cr : crypto,
+         (forall x : bytes, Datatypes.length (cr_hash cr x) = 32%nat) ->
+         (forall x : bytes, all_zero (cr_hash cr x) = false) ->
+         forall bs : list bytes,
+         writer_fits bs ->
+         forall (ev : evo) (ops : list hop) (st : cst) (c : core) (w : world),
+         evictor ev ->
+         RInv cr bs c (w_disk w) ->
+         Forall replica_hop ops ->
+         Forall not_reopen ops ->
+         valid st c w ->
+         snd (hrun_c cr ev ops st c w) = hrun cr ops c w \/
+         Sound.some_collision cr \/ forged_signature cr bs (kp_public (c_keypair c)).
+Proof. exact replica_cache_transparent_no_reopen. Qed.
+
+Theorem C14_cache_transparent_for_replica_histories_with_reopen :
+  forall cr : crypto,
+         (forall x : bytes, Datatypes.length (cr_hash cr x) = 32%nat) ->
+         (forall x : bytes, all_zero (cr_hash cr x) = false) ->
+         forall bs : list bytes,
+         writer_fits bs ->
+         forall (ev : evo) (ops : list hop) (st : cst) (c : core) (w : world),
+         evictor ev ->
+         RInv cr bs c (w_disk w) ->
+         Forall replica_hop ops ->
+         reopen_hyps cr bs ops c w ->
+         valid st c w ->
+         snd (hrun_c cr ev ops st c w) = hrun cr ops c w \/
+         Sound.some_collision cr \/ forged_signature cr bs (kp_public (c_keypair c)).
+Proof. exact replica_cache_transparent. Qed.
+
 Print Assumptions C14_cache_transparent.
 Print Assumptions C14_cache_starts_valid.
 Print Assumptions C14_cache_insert_keeps_valid.
@@ -199,3 +244,6 @@ Print Assumptions CacheOps.caching_a_miss_breaks_transparency.
 Print Assumptions CacheOps.open_caches_blank_root_refuted.
 Print Assumptions PagedMemFacts.with_buffers_exposes_content.
 Print Assumptions PagedMemFacts.ex_state_ok.
+Print Assumptions C14_accepted_proofs_agree_with_visible_nodes.
+Print Assumptions C14_cache_transparent_for_replica_histories.
+Print Assumptions C14_cache_transparent_for_replica_histories_with_reopen.
